@@ -241,6 +241,19 @@ func (s *syncCase) diffSides() (class, what string, err error) {
 		}
 		cmp := func(kind string, a, b data.Points) (string, string) {
 			ma, mb := newestMap(a), newestMap(b)
+			// the store's own once-a-minute metric points (an instance older than 60 s writes them to its root,
+			// i.e. to the device node) are a background writer that never rests: a walk of one side before such a
+			// write and of the other side after it is not a disagreement of the two sides
+			for id := range ma {
+				if strings.HasPrefix(id[0], "metric") {
+					delete(ma, id)
+				}
+			}
+			for id := range mb {
+				if strings.HasPrefix(id[0], "metric") {
+					delete(mb, id)
+				}
+			}
 			for id, pa := range ma {
 				pb, ok := mb[id]
 				if !ok {
